@@ -126,6 +126,8 @@ def main():
                         "replay": {"kind": "obligation", "log": ctx.lean_log[-4000:], "theorems": ctx.obligations}, "no_input": True})
     level = getattr(mod, "LEVEL", "other")
     cov = ctx.coverage
+    from collections import Counter
+    cov["violation_keys_all"] = dict(Counter(v["key"] for v in ctx.violations))
     cov.setdefault("explanation", getattr(mod, "EXPLANATION", ""))
     cov["known_findings_seen"] = sorted(seen_kf)
     cov["notes"] = ctx.notes
